@@ -172,11 +172,15 @@ class C13(BaseCheck):
     a.read(prot)
     prot.readMessageEnd()
     want = getattr(module, method + '_args')(*args, **kwargs)
-    return name == method and mtype == 1 and a == want, (name, mtype, repr(a))
+    # a method declared oneway (no result struct) is sent with message type ONEWAY (4), every other one as CALL (1)
+    want_type = 1 if hasattr(module, method + '_result') else 4
+    return name == method and mtype == want_type and a == want, (name, mtype, repr(a))
 
   def _gen_call(self, rng):
     from vlib.gen.verifsvc import VerifService, ExtService, ttypes
-    m = rng.choice(['echo', 'add', 'swap', 'flag', 'ping', 'blob', 'names', 'extra', 'fail'])
+    m = rng.choice(['echo', 'add', 'swap', 'flag', 'ping', 'blob', 'names', 'extra', 'fail', 'notify'])
+    if m == 'notify':       # declared oneway
+        return VerifService, m, (gen_text(rng, False),), {}
     if m == 'echo' or m == 'fail':
       return VerifService, m, (gen_text(rng, False),), {}
     if m == 'extra':
